@@ -79,6 +79,17 @@ Proof.
   change (c :: r ++ [10]) with ((c :: r) ++ [10]). apply rstrip_line. now right.
 Qed.
 
+Lemma lstrip_spaces ind x : forallb is_space ind = true -> lstrip (ind ++ x) = lstrip x.
+Proof.
+  induction ind as [|c r IH]; intros H; [reflexivity|]. cbn [forallb] in H.
+  apply andb_true_iff in H as [H1 H2]. cbn [app lstrip]. rewrite H1. now apply IH.
+Qed.
+
+Lemma strip_indented ind l : forallb is_space ind = true -> trimmed l = true -> strip (ind ++ l ++ [10]) = l.
+Proof.
+  intros Hi T. unfold strip. rewrite (lstrip_spaces ind _ Hi). now apply (strip_line l).
+Qed.
+
 Lemma last_app_nonempty {A} (a b : list A) d : b <> [] -> last (a ++ b) d = last b d.
 Proof.
   induction a as [|x r IH]; intros H; [reflexivity|].
@@ -276,7 +287,7 @@ Proof.
     rewrite H1, H2, H5. reflexivity.
 Qed.
 
-Definition raw_lines (ls : list str) : list str := map (fun l => l ++ [10]) ls.
+Definition raw_lines (ind : str) (ls : list str) : list str := map (fun l => ind ++ l ++ [10]) ls.
 
 Lemma trim_name v : no_trailing_space v = true -> trimmed (K_NAME ++ v) = true.
 Proof. exact (trimmed_key_value 78 [97; 109; 101; 61] v eq_refl eq_refl). Qed.
@@ -327,10 +338,12 @@ Proof. destruct l; reflexivity. Qed.
 
 Section Step.
   Variables (fx : fixes) (base dirsel : str).
+  Variable ind : str.
+  Hypothesis Hind : forallb is_space ind = true.
   Notation PLF := (plf_loop fx base dirsel None).
 
   Lemma line_step l rest g out : trimmed l = true ->
-    PLF ((l ++ [10]) :: rest) g None out =
+    PLF ((ind ++ l ++ [10]) :: rest) g None out =
     match do_line base l g with
     | SCont g' => PLF rest g' None out
     | SEnd => PLF rest (gstart fx dirsel None) None (emit base g out)
@@ -340,20 +353,20 @@ Section Step.
         else PLF rest (set_abstract ([] ++ a) g') None out
     | SFail e => Raise e
     end.
-  Proof. intros T. rewrite plf_cons_normal, (strip_line l T). reflexivity. Qed.
+  Proof. intros T. rewrite plf_cons_normal, (strip_indented ind l Hind T). reflexivity. Qed.
 
   Lemma abs_step l rest g acc out : trimmed l = true ->
-    PLF ((l ++ [10]) :: rest) g (Some acc) out =
+    PLF ((ind ++ l ++ [10]) :: rest) g (Some acc) out =
     if negb (str_eqb l []) && last_is 92 l
     then PLF rest g (Some (acc ++ drop_last l ++ [10])) out
     else PLF rest (set_abstract (acc ++ l) g) None out.
-  Proof. intros T. rewrite plf_cons_abs, (strip_line l T). reflexivity. Qed.
+  Proof. intros T. rewrite plf_cons_abs, (strip_indented ind l Hind T). reflexivity. Qed.
 
   (* continuation lines of an abstract *)
   Lemma abs_conts cs : forall final rest g acc out,
     forallb (fun l => match l with [] => true | c :: _ => negb (is_space c) end) (cs ++ [final]) = true ->
     no_trailing_space final = true -> last_is 92 final = false ->
-    PLF (raw_lines (map (fun l => l ++ [92]) cs ++ [final]) ++ rest) g (Some acc) out =
+    PLF (raw_lines ind (map (fun l => l ++ [92]) cs ++ [final]) ++ rest) g (Some acc) out =
     PLF rest (set_abstract (acc ++ concat (map (fun c => c ++ [10]) cs) ++ final) g) None out.
   Proof.
     induction cs as [|c cs IH]; intros final rest g acc out F Hn Hl.
@@ -365,12 +378,12 @@ Section Step.
       2:{ apply trimmed_of_parts; [|now apply nts_snoc].
           destruct c as [|x r]; [reflexivity | exact Fc]. }
       rewrite snoc_not_nil, last_is_snoc, drop_last_app. cbn [negb andb N.eqb Pos.eqb].
-      fold (raw_lines (map (fun l => l ++ [92]) cs ++ [final])).
+      fold (raw_lines ind (map (fun l => l ++ [92]) cs ++ [final])).
       rewrite IH by assumption. cbn [map concat]. now rewrite <- !app_assoc.
   Qed.
 
   Lemma field_step f rest g out : wf_field f = true ->
-    PLF (raw_lines (field_lines f) ++ rest) g None out = PLF rest (apply_field base f g) None out.
+    PLF (raw_lines ind (field_lines f) ++ rest) g None out = PLF rest (apply_field base f g) None out.
   Proof.
     intros W. destruct f as [v|c|p|h|p|neg d|conts final]; cbn [wf_field] in W.
     - apply andb_true_iff in W as [_ W]. cbn [field_lines raw_lines map app].
@@ -414,7 +427,7 @@ Section Step.
         2:{ apply trim_abstract. now apply nts_snoc. }
         rewrite do_line_abstract. rewrite snoc_not_nil, last_is_snoc, drop_last_app.
         cbn [negb andb N.eqb Pos.eqb app].
-        fold (raw_lines (map (fun l => l ++ [92]) cs ++ [final])).
+        fold (raw_lines ind (map (fun l => l ++ [92]) cs ++ [final])).
         change (tl ((c :: cs) ++ [final])) with (cs ++ [final]) in Fl.
         rewrite abs_conts by assumption. cbn [apply_field map concat]. now rewrite <- !app_assoc.
   Qed.
@@ -520,44 +533,58 @@ Section Whole.
   Variables (fx : fixes) (base dirsel : str).
   Notation PLF := (plf_loop fx base dirsel None).
 
-  Lemma raw_lines_app a b : raw_lines (a ++ b) = raw_lines a ++ raw_lines b.
+  Lemma raw_lines_app ind a b : raw_lines ind (a ++ b) = raw_lines ind a ++ raw_lines ind b.
   Proof. apply map_app. Qed.
 
-  Lemma fields_step fs : forall rest g out, forallb wf_field fs = true ->
-    PLF (raw_lines (concat (map field_lines fs)) ++ rest) g None out =
-    PLF rest (fold_fields base fs g) None out.
+  Lemma raw_of_indented b :
+    map (fun l => l ++ [10]) (indented_lines b) = raw_lines (sb_indent b) (block_lines b).
   Proof.
-    induction fs as [|f r IH]; intros rest g out W; [reflexivity|].
-    cbn [forallb] in W. apply andb_true_iff in W as [W1 W2].
-    cbn [map concat]. rewrite raw_lines_app, <- app_assoc.
-    rewrite (field_step fx base dirsel f _ g out W1). now rewrite IH.
+    unfold indented_lines, raw_lines. rewrite map_map. apply map_ext. intros l. now rewrite <- app_assoc.
   Qed.
 
-  Lemma comments_step cs : forall rest g out,
-    g_path g = false -> forallb (fun c => no_eol c && no_trailing_space c) cs = true ->
-    PLF (raw_lines (map (fun c => 35 :: c) cs) ++ rest) g None out = PLF rest g None out.
-  Proof.
-    induction cs as [|c r IH]; intros rest g out P W; [reflexivity|].
-    cbn [forallb] in W. apply andb_true_iff in W as [W1 W2]. apply andb_true_iff in W1 as [_ W1].
-    cbn [map raw_lines app].
-    rewrite (line_step fx base dirsel (35 :: c) _ g out (trim_comment c W1)).
-    rewrite do_line_comment, P. fold (raw_lines (map (fun c => 35 :: c) r)). now apply IH.
-  Qed.
+  Section Indented.
+    Variable ind : str.
+    Hypothesis Hind : forallb is_space ind = true.
+
+    Lemma fields_step fs : forall rest g out, forallb wf_field fs = true ->
+      PLF (raw_lines ind (concat (map field_lines fs)) ++ rest) g None out =
+      PLF rest (fold_fields base fs g) None out.
+    Proof.
+      induction fs as [|f r IH]; intros rest g out W; [reflexivity|].
+      cbn [forallb] in W. apply andb_true_iff in W as [W1 W2].
+      cbn [map concat]. rewrite raw_lines_app, <- app_assoc.
+      rewrite (field_step fx base dirsel ind Hind f _ g out W1). now rewrite IH.
+    Qed.
+
+    Lemma comments_step cs : forall rest g out,
+      g_path g = false -> forallb (fun c => no_eol c && no_trailing_space c) cs = true ->
+      PLF (raw_lines ind (map (fun c => 35 :: c) cs) ++ rest) g None out = PLF rest g None out.
+    Proof.
+      induction cs as [|c r IH]; intros rest g out P W; [reflexivity|].
+      cbn [forallb] in W. apply andb_true_iff in W as [W1 W2]. apply andb_true_iff in W1 as [_ W1].
+      unfold raw_lines. cbn [map app]. fold (raw_lines ind (map (fun c => 35 :: c) r)).
+      rewrite (line_step fx base dirsel ind Hind (35 :: c) _ g out (trim_comment c W1)).
+      rewrite do_line_comment, P. now apply IH.
+    Qed.
+  End Indented.
 
   Lemma block_step b rest g out : wf_block b = true -> g_path g = false ->
-    PLF (raw_lines (block_lines b) ++ rest) g None out =
+    PLF (map (fun l => l ++ [10]) (indented_lines b) ++ rest) g None out =
     PLF rest (fold_fields base (sb_fields b) g) None out.
   Proof.
     unfold wf_block. intros W P. apply andb_true_iff in W as [W _]. apply andb_true_iff in W as [W _].
-    apply andb_true_iff in W as [Wc Wf].
-    unfold block_lines. rewrite raw_lines_app, <- app_assoc.
-    rewrite comments_step by assumption. now apply fields_step.
+    apply andb_true_iff in W as [W Wf]. apply andb_true_iff in W as [Wi Wc].
+    unfold wf_indent in Wi. apply andb_true_iff in Wi as [Wi _].
+    rewrite raw_of_indented. unfold block_lines. rewrite raw_lines_app, <- app_assoc.
+    rewrite (comments_step (sb_indent b) Wi (sb_comments b) _ g out P Wc).
+    apply (fields_step (sb_indent b) Wi). exact Wf.
   Qed.
 
   Definition read_block (b : sblock) : lentry := default_num fx (spec_lentry base dirsel b).
 
   Lemma lf_parse lf : forall out, wf_linkfile lf = true ->
-    PLF (raw_lines (lf_lines lf)) (gstart fx dirsel None) None out = Ok (rev out ++ map read_block lf).
+    PLF (map (fun l => l ++ [10]) (lf_lines lf)) (gstart fx dirsel None) None out =
+    Ok (rev out ++ map read_block lf).
   Proof.
     induction lf as [|b r IH]; intros out W.
     - cbn. now rewrite app_nil_r.
@@ -565,12 +592,13 @@ Section Whole.
       assert (E : emit base (fold_fields base (sb_fields b) (gstart fx dirsel None)) out = read_block b :: out).
       { unfold emit. now rewrite (gfinish_block fx base dirsel b Wb). }
       destruct r as [|b2 r'].
-      + cbn [lf_lines]. rewrite <- (app_nil_r (raw_lines (block_lines b))).
+      + cbn [lf_lines]. rewrite <- (app_nil_r (map (fun l => l ++ [10]) (indented_lines b))).
         rewrite block_step by (trivial). cbn [plf_loop]. rewrite E. cbn [rev map]. reflexivity.
-      + change (lf_lines (b :: b2 :: r')) with (block_lines b ++ [] :: lf_lines (b2 :: r')).
-        rewrite raw_lines_app. rewrite block_step by trivial.
-        change (raw_lines ([] :: lf_lines (b2 :: r'))) with (([] ++ [10]) :: raw_lines (lf_lines (b2 :: r'))).
-        rewrite (line_step fx base dirsel [] _ _ out eq_refl). cbn [do_line]. rewrite E.
+      + change (lf_lines (b :: b2 :: r')) with (indented_lines b ++ [] :: lf_lines (b2 :: r')).
+        rewrite map_app. rewrite block_step by trivial.
+        change (map (fun l => l ++ [10]) ([] :: lf_lines (b2 :: r')))
+          with (([] ++ [] ++ [10]) :: map (fun l => l ++ [10]) (lf_lines (b2 :: r'))).
+        rewrite (line_step fx base dirsel [] eq_refl [] _ _ out eq_refl). cbn [do_line]. rewrite E.
         rewrite (IH (read_block b :: out) Wr). cbn [rev map]. now rewrite <- app_assoc.
   Qed.
 End Whole.
@@ -623,16 +651,22 @@ Proof.
       rewrite forallb_app', M. cbn [forallb]. rewrite Wf. reflexivity.
 Qed.
 
-Lemma block_lines_no_eol b : wf_block b = true -> forallb no_eol (block_lines b) = true.
+Lemma block_lines_no_eol b : wf_block b = true -> forallb no_eol (indented_lines b) = true.
 Proof.
   unfold wf_block. intros W. apply andb_true_iff in W as [W _]. apply andb_true_iff in W as [W _].
-  apply andb_true_iff in W as [Wc Wf]. unfold block_lines. rewrite forallb_app'. apply andb_true_iff. split.
-  - clear Wf. induction (sb_comments b) as [|c r IH]; [reflexivity|].
-    cbn [forallb] in Wc. apply andb_true_iff in Wc as [H1 H2]. apply andb_true_iff in H1 as [H1 _].
-    cbn [map forallb]. change (35 :: c) with ([35] ++ c). rewrite no_eol_app, H1, (IH H2). reflexivity.
-  - clear Wc. induction (sb_fields b) as [|f r IH]; [reflexivity|].
-    cbn [forallb] in Wf. apply andb_true_iff in Wf as [H1 H2].
-    cbn [map concat]. rewrite forallb_app', (field_lines_no_eol f H1), (IH H2). reflexivity.
+  apply andb_true_iff in W as [W Wf]. apply andb_true_iff in W as [Wi Wc].
+  unfold wf_indent in Wi. apply andb_true_iff in Wi as [_ Wi].
+  assert (B : forallb no_eol (block_lines b) = true).
+  { unfold block_lines. rewrite forallb_app'. apply andb_true_iff. split.
+    - clear Wf. induction (sb_comments b) as [|c r IH]; [reflexivity|].
+      cbn [forallb] in Wc. apply andb_true_iff in Wc as [H1 H2]. apply andb_true_iff in H1 as [H1 _].
+      cbn [map forallb]. change (35 :: c) with ([35] ++ c). rewrite no_eol_app, H1, (IH H2). reflexivity.
+    - clear Wc. induction (sb_fields b) as [|f r IH]; [reflexivity|].
+      cbn [forallb] in Wf. apply andb_true_iff in Wf as [H1 H2].
+      cbn [map concat]. rewrite forallb_app', (field_lines_no_eol f H1), (IH H2). reflexivity. }
+  unfold indented_lines. induction (block_lines b) as [|l r IH]; [reflexivity|].
+  cbn [forallb] in B. apply andb_true_iff in B as [B1 B2].
+  cbn [map forallb]. rewrite no_eol_app, Wi, B1, (IH B2). reflexivity.
 Qed.
 
 Lemma lf_lines_no_eol lf : wf_linkfile lf = true -> forallb no_eol (lf_lines lf) = true.
@@ -640,7 +674,7 @@ Proof.
   induction lf as [|b r IH]; [reflexivity|]. intros W. cbn [wf_linkfile forallb] in W.
   apply andb_true_iff in W as [Wb Wr]. destruct r as [|b2 r'].
   - cbn [lf_lines]. now apply block_lines_no_eol.
-  - change (lf_lines (b :: b2 :: r')) with (block_lines b ++ [] :: lf_lines (b2 :: r')).
+  - change (lf_lines (b :: b2 :: r')) with (indented_lines b ++ [] :: lf_lines (b2 :: r')).
     rewrite forallb_app'. cbn [forallb]. rewrite (block_lines_no_eol b Wb). now rewrite (IH Wr).
 Qed.
 
@@ -657,5 +691,5 @@ Proof.
   rewrite lines_keepends_lines.
   2:{ apply forallb_forall. intros l I. rewrite forallb_forall in NE. specialize (NE l I). unfold no_eol in NE.
       now apply andb_true_iff in NE as [N10 _]. }
-  fold (raw_lines (lf_lines lf)). rewrite (lf_parse fx base dirsel lf [] W). reflexivity.
+  rewrite (lf_parse fx base dirsel lf [] W). reflexivity.
 Qed.
